@@ -1,7 +1,7 @@
 """C12 — any legal C API call sequence is contained: error codes, no crash, no aliasing.
 
 proof:   coq/theories/C12/{PoolDefs,PoolProofs,Ops,ApiDefs}.v, Properties_C12.v — an object-pool state machine for the ownership
-         and lifetime rules of the C API (177 modelled entry points (189 rows: the array constructors have one row per array length; the 3 interrupt functions included)); theorems: legal calls only receive live objects of the right
+         and lifetime rules of the C API (178 modelled entry points (190 rows: the array constructors have one row per array length; the 3 interrupt functions included)); theorems: legal calls only receive live objects of the right
          kind, consumed / destroyed objects stay dead, results are fresh handles, dependencies outlive their dependents (prepared
          geometry -> base, STRtree -> items), the pool stays well formed, and EVERY program the generator emits is legal.
 tie:     G  Gen/C12_api_table.v is written on every run from capi/geos_ts_c.cpp + capi/geos_c.h.in (return type, execute() overload and
@@ -234,8 +234,8 @@ def fill_errvals(prog, errs):
 def run(ctx):
     from props.C11 import run_cases, _run_chunk
     quick = ctx.quick
-    ctx.cov['rule'] = ('legal programs (theorem gen_legal) of the extracted generator: 8 literal geometries from a table of 59 WKT literals (56 pathological ones and 3 dense ones: a 64-vertex ring, 48 tiny lines, a 96-vertex zigzag) (empties at any level, '
-                       'NaN/Inf/1e300 ordinates, invalid topology, zero-length and single-point components, curved types, Z/M), then up to 40 calls over the 177 modelled entry points (189 rows: the array constructors have one row per array length; the 3 interrupt functions included) with '
+    ctx.cov['rule'] = ('legal programs (theorem gen_legal) of the extracted generator: 8 literal geometries from a table of 63 WKT literals (56 pathological ones, 3 dense ones: a 64-vertex ring, 48 tiny lines, a 96-vertex zigzag; and 4 garbage words of 900, 1100, 5000 and 70000 characters whose error text quotes them) (empties at any level, '
+                       'NaN/Inf/1e300 ordinates, invalid topology, zero-length and single-point components, curved types, Z/M), then up to 40 calls over the 178 modelled entry points (190 rows: the array constructors have one row per array length; the 3 interrupt functions included) with '
                        'arguments from the pool and numeric parameters from boundary tables (NaN, +-Inf, +-0, negative, 1e300, DBL_MAX, INT_MAX/MIN, UINT_MAX, out-of-range indices and enum codes); '
                        'distinct by program text; non-trivial = at least one call beyond the literals returned an error value and at least one object was destroyed or consumed')
     ctx.assumptions += [
@@ -308,7 +308,7 @@ def run(ctx):
                 hung[r0['op']] = hung.get(r0['op'], 0) + 1
     ctx.log('implementation (asan): %d programs in %.1fs%s' % (len(lines) - nskipped, time.time() - t0, (' (%d programs skipped: they call %s, which already timed out twice)' % (nskipped, ', '.join(sorted(op_ for op_, n_ in hung.items() if n_ >= 2)))) if nskipped else ''))
     ctx.notes['programs_skipped_after_repeated_timeouts'] = dict(skipped=nskipped, entry_points=sorted(op_ for op_, n_ in hung.items() if n_ >= 2))
-    opcount = {}; fails = {}; softs = {}; ncalls = nerrs = 0; slowest = {}; nintr = nafter = nintrprog = 0
+    opcount = {}; fails = {}; softs = {}; ncalls = nerrs = 0; slowest = {}; nintr = nafter = nintrprog = nlong = 0
     nviol = 0
     for line, o in zip(lines, out):
         if o == 'SKIPPED':
@@ -322,6 +322,7 @@ def run(ctx):
             kv = r['kv']; ncalls += int(kv.get('calls', 0)); nerrs += int(kv.get('errs', 0))
             nontrivial = int(kv.get('errs', 0)) > 0 and any(re.search(r' [DXpTZV]', ' ' + c.split(' ')[1]) or any(ch in c.split(' ')[1] for ch in 'DXpTZVY') for c in calls if len(c.split(' ')) > 1)
             sl = kv.get('slow', '-'); slowest[sl] = max(slowest.get(sl, 0), int(kv.get('maxms', 0)))
+            nlong += int(kv.get('longmsg', 0))
             nintr += int(kv.get('intr', 0)); nafter += int(kv.get('after', 0)); nintrprog += 1 if int(kv.get('intr', 0)) > 0 else 0
         ctx.count(line, nontrivial)
         problems = []
@@ -360,6 +361,9 @@ def run(ctx):
     ctx.cov['traces_validated_against_impl'] = len(lines)
     ctx.notes['programs'] = len(lines); ctx.notes['calls_executed'] = ncalls; ctx.notes['calls_returning_error'] = nerrs
     ctx.notes['interruption'] = dict(calls_interrupted=nintr, programs_with_a_delivered_interruption=nintrprog, unasked_constructive_or_predicate_calls_after_a_delivery=nafter)
+    ctx.notes['calls_failing_with_an_error_text_of_900+_characters'] = nlong
+    if nlong < (40 if quick else 200):
+        ctx.broken.append(dict(kind='generator', name='distribution', detail='only %d calls failed with a long error text (garbage WKT words / DE-9IM patterns of 900..70000 characters)' % nlong))
     if nintrprog < (20 if quick else 100) or nafter < (50 if quick else 300):
         ctx.broken.append(dict(kind='generator', name='distribution', detail='too few programs exercise the interruption protocol: %d with a delivered interruption, %d later unasked calls' % (nintrprog, nafter)))
     ctx.notes['failures_by_kind_and_entry_point'] = dict(sorted(fails.items(), key=lambda kv: -kv[1])[:40])
